@@ -40,6 +40,13 @@ CHECKS = {
             "list of <= 3 prefixes in every order for the constructor, and mutated encodings for the decoder, each with the verdict computed by TLC from the "
             "declarative rule; the implementation must agree on every single one.",
             "Only bit lengths <= 3 are enumerated; the 2^16 length limit is covered by C16's lattice."),
+    "C13": ("DESIGN.md#c13--aggregation-is-ordergrouping-independent",
+            "TLA+ spec of partial aggregation (Aggregation.tla): any partition into partial aggregates, accumulate order and merge tree, plus refused "
+            "incompatible shares; TLC checks partial-sum invariants on every state; every script replayed on the real aggregate-share types",
+            "Exhaustive (bounded) exploration of aggregation schedules for 3-5 output shares with up to 3 live partial aggregates and one refused operation; "
+            "invariants: each partial aggregate is exactly the sum of the shares folded into it, no double counting, final = single pass. All >600k scripts "
+            "replayed on AggregateShare over FieldV17/Field128/Field64/FieldPrio2 (created through the VDAFs' aggregate_init) and Poplar1FieldVec inner/leaf.",
+            "Bounds: <= 5 shares, vectors of length 2-3, <= 9 operations; symmetry breaking on creation of empty aggregates (commutes with all other operations)."),
 }
 
 NOT_YET = {}
